@@ -10,6 +10,9 @@ Accepted shapes (K is the local kind variable, P the `problem_kind` argument)
   supported_kind():          K = ProblemKind(version=LATEST_PROBLEM_KIND_VERSION)  |  K = Other.supported_kind()
                              <stmts> ; return K
   resulting_problem_kind():  K = P.clone() ; <stmts> ; return K        |  return P.clone()
+                             K = helper(P) ; <stmts> ; return K       |  return helper(P)
+                             where `helper` is a module-level function of engines/compilers/utils.py that has itself
+                             the shape of a resulting_problem_kind with one argument (it is inlined)
   <stmt> ::= K.set_<group>("FEATURE") | K.unset_<group>("FEATURE")
            | if <cond>: <stmts> [elif <cond>: <stmts>]* [else: <stmts>]
            | for x in FEATURES["GROUP"]: (K.set_<group>(x) | K.unset_<group>(x))+     (unrolled with the FEATURES
@@ -218,27 +221,43 @@ class _Tr:
             raise TranslationBroken(rel, b[-1].lineno, "supported_kind must end with `return <kind variable>`")
         return pre + self.stmts(b[1:-1], K, "\0", rel)
 
-    def resulting(self, cls):
-        owner, fn = _resolve(self.classes, cls, "resulting_problem_kind")
-        rel = owner.rel
+    def transformer(self, fn, rel, nargs, what, seen=()):
+        """items of a function of the shape `K = P.clone() | helper(P); <stmts>; return K`"""
         args = [a.arg for a in fn.args.args]
-        if len(args) != 2:
-            raise TranslationBroken(rel, fn.lineno, "resulting_problem_kind must take (problem_kind, compilation_kind)")
+        if len(args) != nargs:
+            raise TranslationBroken(rel, fn.lineno, f"{what} must take {nargs} argument(s)")
         P = args[0]
         b = _body(fn)
 
-        def is_clone(e):
-            return (isinstance(e, ast.Call) and not e.args and not e.keywords and isinstance(e.func, ast.Attribute)
-                    and e.func.attr == "clone" and isinstance(e.func.value, ast.Name) and e.func.value.id == P)
-        if len(b) == 1 and isinstance(b[0], ast.Return) and is_clone(b[0].value):
-            return []
+        def start(e):
+            """items computed by the initial value of the kind variable, or None"""
+            if (isinstance(e, ast.Call) and not e.args and not e.keywords and isinstance(e.func, ast.Attribute)
+                    and e.func.attr == "clone" and isinstance(e.func.value, ast.Name) and e.func.value.id == P):
+                return []
+            if (isinstance(e, ast.Call) and len(e.args) == 1 and not e.keywords and isinstance(e.func, ast.Name)
+                    and isinstance(e.args[0], ast.Name) and e.args[0].id == P):
+                h = e.func.id
+                if h in seen:
+                    raise TranslationBroken(rel, e.lineno, f"cyclic helper call {h}")
+                tree, urel = _parse(PKG + "/utils.py")
+                for n in tree.body:
+                    if isinstance(n, ast.FunctionDef) and n.name == h:
+                        return self.transformer(n, urel, 1, h, seen + (h,))
+                raise TranslationBroken(rel, e.lineno, f"helper {h} is not a function of {PKG}/utils.py")
+            return None
+        if len(b) == 1 and isinstance(b[0], ast.Return) and start(b[0].value) is not None:
+            return start(b[0].value)
         if len(b) < 2 or not (isinstance(b[0], ast.Assign) and len(b[0].targets) == 1 and isinstance(b[0].targets[0], ast.Name)
-                              and is_clone(b[0].value)):
-            raise TranslationBroken(rel, fn.lineno, "resulting_problem_kind must start with `<var> = problem_kind.clone()`")
+                              and start(b[0].value) is not None):
+            raise TranslationBroken(rel, fn.lineno, f"{what} must start with `<var> = problem_kind.clone()` or `<var> = helper(problem_kind)`")
         K = b[0].targets[0].id
         if not (isinstance(b[-1], ast.Return) and isinstance(b[-1].value, ast.Name) and b[-1].value.id == K):
-            raise TranslationBroken(rel, b[-1].lineno, "resulting_problem_kind must end with `return <kind variable>`")
-        return self.stmts(b[1:-1], K, P, rel)
+            raise TranslationBroken(rel, b[-1].lineno, f"{what} must end with `return <kind variable>`")
+        return start(b[0].value) + self.stmts(b[1:-1], K, P, rel)
+
+    def resulting(self, cls):
+        owner, fn = _resolve(self.classes, cls, "resulting_problem_kind")
+        return self.transformer(fn, owner.rel, 2, "resulting_problem_kind")
 
     def supports_class(self, cls):
         """name of the class whose supported_kind() the (possibly inherited) supports() compares against"""
